@@ -17,7 +17,7 @@ CHECKS = {
          "At the press of the fired mapping's final output key, in every reachable state: listed modifiers down, no stale modifier. One shape (modifier as final output key) is an open known finding."),
  "C05": ("model_checking", "A", "6-C05", "explicit-state BFS over the real Mapper::step; foreign keys in the alphabet",
          "Foreign keys (modifier and non-modifier) pressed/released from every reachable state; release and in-effect clauses as transition predicates; empty layout is the identity on acted-on events."),
- "C06": ("model_checking", "A", "3.4, 6-C06", "explicit-state BFS + coarsest bisimulation (partition refinement) of the explored Mealy machine",
+ "C06": ("model_checking", "A", "3.4, 6-C06", "explicit-state BFS + coarsest bisimulation (partition refinement) of the explored Mealy machine; loop half: stateless DFS over tablet-mode schedules of the real per-device loop (Engine B)",
          "Every rest state (after releases or after release_all from any reachable state) has nothing held and is bisimilar to the initial state, i.e. answers every continuation within the bound like a fresh mapper."),
  "C07": ("model_checking", "A", "6-C07", "explicit-state BFS over the real Mapper::step; nr monitor in the product",
          "After every (certain or observed) firing of a Disabled/Special mapping no non-modifier key is held, each output was pressed, and nothing becomes held again before the next press."),
@@ -27,7 +27,7 @@ CHECKS = {
          "Every step's repeat instruction (Repeating exactly the fired Special mapping's parameters / Disabled / NoChange with no events for ignored events) in every reachable state."),
  "C10": ("model_checking", "B", "4, 6-C10", "stateless DFS (prefix replay) over all delivery schedules of the real per-device loop under a scripted driver; plus bounded-exhaustive stepped scenarios of the real driver on real descriptors and a hang-up probe (Engine R)",
          "Every history over a small key alphabet up to the length bound, every way of batching it into arrivals under edge-triggered readiness, late arrivals between reads, spurious time-outs and interruptions up to the deviation bound, end-of-device at every point: the writes equal a fresh real mapper's non-empty step outputs, each written at once; no poll while notified events are unread; no call after End."),
- "C11": ("model_checking", "B", "4.2, 6-C11, 7.7", "stateless DFS over delivery schedules and time-out placements with a virtual clock owned by the environment",
+ "C11": ("model_checking", "B", "4.2, 6-C11, 7.7", "stateless DFS over delivery schedules and time-out placements with a virtual clock owned by the environment; plus an interrupted-wait probe of the real driver on the machine's clock with a one-sided bound read from /proc (Engine R)",
          "Every placement of on-time and late time-outs between events: poll time-outs never reach beyond the next due time, a chord is written exactly in reaction to a time-out at/after the due time anchored at the firing (no drift), its payload leaves held keys alone and the held set unchanged, nothing is written at other times."),
  "C12": ("model_checking", "B", "4.2, 6-C12, 7.6", "stateless DFS over delivery schedules including tablet-switch events on a second device; plus bounded-exhaustive stepped scenarios of the real driver and tablet-switch reader on real descriptors (Engine R)",
          "Every placement of On/Off events (repeated, Off first, sharing a wake-up with keyboard events in both orders, while chords or timers are live): held keys released at once, nothing written until Off, fresh start after Off."),
@@ -45,7 +45,7 @@ CHECKS = {
          "Every input goes through the real build_service_text; the reference reader (split, unquote, C-unescape, % specifiers, $ variables) must return the expected argument vector with every pattern byte-identical (order and repetition of the --exclude pairs are not constrained, DESIGN 7.10); the same oracle reads the unit file the real binary writes for every scalar value, alphabet pair and long list."),
  "C18": ("exploration", "C", "5.3, 6-C18", "exhaustive enumeration over all key codes, short and long batches, devices with little room and record-kind sequences; real writer and reader over a pipe with libc::input_event as layout oracle; large batches through the real driver on real descriptors (Engine R)",
          "Every key code x press/release, every short batch over boundary codes: byte length, every record's type/code/value at libc's offsets, exactly one trailing SYN_REPORT; the real reader returns the same events then EAGAIN and skips every foreign record kind in every sequence up to the bound."),
- "C19": ("model_checking", "A", "6-C19", "explicit-state BFS over the real Mapper::step; fold of the emitted stream",
+ "C19": ("model_checking", "A", "6-C19", "explicit-state BFS over the real Mapper::step; fold of the emitted stream; device-level half: the same fold over what the real per-device loop writes in every tablet-mode schedule (Engine B)",
          "Within every step's event list and every release_all batch, from every reachable state: press only of an up key, release only of a down key."),
 }
 
@@ -62,8 +62,8 @@ def repo_hook_commits():
 
 ENGINES = [
  {"name": "A", "path": "harness/src/engine_a.rs", "serves_properties": ["C01","C02","C03","C04","C05","C06","C07","C08","C09","C19","C14"], "kind_free_text": "explicit-state BFS to fixpoint over the real Mapper::step/release_all with product monitors; partition refinement for C06"},
- {"name": "B", "path": "harness/src/engine_b.rs", "serves_properties": ["C10","C11","C12","C20"], "kind_free_text": "stateless DFS over environment choices of a scripted driver + virtual clock running the real do_remapping_loop_one_device"},
- {"name": "R", "path": "harness/src/engine_r.rs", "serves_properties": ["C10","C12","C18","C20"], "kind_free_text": "the real RealDriver, readers, writer and poll registry over socket pairs and a pipe, stepped deterministically (loop thread observed at rest in epoll_wait); bounded-exhaustive scenario families with descriptor-state faults"},
+ {"name": "B", "path": "harness/src/engine_b.rs", "serves_properties": ["C06","C10","C11","C12","C19","C20"], "kind_free_text": "stateless DFS over environment choices of a scripted driver + virtual clock running the real do_remapping_loop_one_device"},
+ {"name": "R", "path": "harness/src/engine_r.rs", "serves_properties": ["C10","C11","C12","C18","C20"], "kind_free_text": "the real RealDriver, readers, writer and poll registry over socket pairs and a pipe, stepped deterministically (loop thread observed at rest in epoll_wait); bounded-exhaustive scenario families with descriptor-state faults"},
  {"name": "E", "path": "harness/src/e2e.rs", "serves_properties": ["C14","C15","C17"], "kind_free_text": "the real binary (guard off) in a private mount namespace with a private /etc and /dev and no-op helper programs: add_systemd_service and remap --layout-file over the same exhaustive input families, the files it leaves behind judged by the in-process oracles (DESIGN 5.5)"},
  {"name": "C", "path": "harness/src", "serves_properties": ["C13","C14","C15","C16","C17","C18"], "kind_free_text": "bounded-exhaustive input enumeration of the pure functions against small reference models; one file per property: c13.rs ... c18.rs"},
 ]
